@@ -12,7 +12,7 @@ engine = "sched"
 coq_imports = ["Model.Base", "Check.C09bCheck"]
 case_type = "wcase09"
 model_name = "(monitor only: the scheduler model has no callbacks)"
-monitor_name = "C09bCheck.worlds_ok (one World instance per attempt, mutations thread, no instance shared across attempts or scenarios)"
+monitor_name = "C09bCheck.worlds_ok (one World instance per attempt, mutations thread, no instance shared across attempts or scenarios; the after hook exactly once, last, for every attempt that entered user code)"
 sub_names = {1: "the World instances seen by every callback of the run, in the order the callbacks ran"}
 rule = ("ALSO on whole runs of the scheduler (several attempts in flight): every callback records the World instance it was "
         "handed (instances numbered by the real World::new() calls) and the mutations that instance had seen: " + schedgen.RULE)
@@ -22,9 +22,26 @@ harness_timeout = 600
 coq_per_file = 40
 
 
+def gen_one(rng):
+    case = schedgen.gen_one(rng)
+    # 40 %: directed at "the after hook runs exactly once ... for every interleaving": an after hook is installed, fail-fast is
+    # on, several attempts are in flight and one scenario fails for good while others are still running
+    if rng.random() < 0.4:
+        scs = [sc for it in case["items"] for sc in it.get("scenarios", [])]
+        if len(scs) >= 2:
+            case["after_hook"] = True
+            case["ff_cli"] = True
+            case["conc_cli"] = None
+            case["conc_builder"] = rng.choice([None, 2, 4])
+            bad = rng.choice(scs)
+            bad["fails"] = max(1, bad.get("fails", 0))
+            bad["retry"] = None
+    return case
+
+
 def gen(rng, tier):
     n = 1500 if tier == "thorough" else 150
-    return [schedgen.gen_one(rng) for _ in range(n)]
+    return [gen_one(rng) for _ in range(n)]
 
 
 def term(case, res):
@@ -32,4 +49,4 @@ def term(case, res):
     if recs is None:
         raise ValueError("no World log in the result")
     one = lambda r: "(mk_wrec %s %s %s %s %s)" % tuple(cN(x) for x in r)
-    return "(mk_wcase09 %s %s)" % (clist(recs, one), cbool(bool(res.get("terminated"))))
+    return "(mk_wcase09 %s %s %s)" % (clist(recs, one), cbool(bool(res.get("terminated"))), cbool(bool(case.get("after_hook"))))
